@@ -234,10 +234,12 @@ structure Marked where
   prio : Nat
   deriving DecidableEq, Repr
 
-/-- `VoteStatus`: which kinds went over the threshold, per validator kind -/
+/-- `VoteStatus`: which kinds went over the threshold, per validator kind, and (`chamberTh`) the quorum in force when
+    the chamber quorum of a kind was last seen (kept as the quorum count derived from the threshold) -/
 structure VoteStatus where
   chamber : List Kind := []
   house : List Kind := []
+  chamberQ : List (Nat × Nat) := []
 
 /-- own sortition result for one vote kind (`StepView`): sub-users, validator kind, quorum derived from Threshold -/
 structure Seat where
@@ -341,8 +343,10 @@ def Voter.cur? (v : Voter) : Option Wrapper :=
 
 def statusHas (vs : VoteStatus) (k : Kind) (vt : Nat) : Bool :=
   if vt = 1 then vs.chamber.contains k else if vt = 2 then vs.house.contains k else false
-def statusAdd (vs : VoteStatus) (k : Kind) (vt : Nat) : VoteStatus :=
-  if vt = 1 then { vs with chamber := k :: vs.chamber } else if vt = 2 then { vs with house := k :: vs.house } else vs
+def statusAdd (vs : VoteStatus) (k : Kind) (vt q : Nat) : VoteStatus :=
+  if vt = 1 then { vs with chamber := k :: vs.chamber, chamberQ := assocSet vs.chamberQ k.code q }
+  else if vt = 2 then { vs with house := k :: vs.house } else vs
+def statusQ (vs : VoteStatus) (k : Kind) : Nat := (assocGet vs.chamberQ k.code).getD 0
 
 /-- everything `Voter.vote` does before `judgeVoteCount`; `some (count, seat)` when the vote was cast -/
 def voteCore (s : St) (k : Kind) (h prio : Nat) : St × Option (Nat × Seat) :=
@@ -373,7 +377,7 @@ def judgePre (s : St) (k : Kind) (count q h vt : Nat) : St × Bool :=
     ({ s with v := { s.v with updateEv := some (s.v.round.getD 0, s.v.index, h) } }, false)
   else
     let vs := (assocGet s.v.voteOver h).getD {}
-    let s' := { s with v := { s.v with voteOver := assocSet s.v.voteOver h (statusAdd vs k vt) } }
+    let s' := { s with v := { s.v with voteOver := assocSet s.v.voteOver h (statusAdd vs k vt q) } }
     (s', vt = 1)
 
 def overStatus (s : St) (h : Nat) (k : Kind) : Bool := statusHas ((assocGet s.v.voteOver h).getD {}) k 1
@@ -407,15 +411,26 @@ def setMarkedBlock (s : St) (h prio : Nat) : St :=
     let res := voteNext s h prio
     if !res.2 then { res.1 with v := { res.1.v with nextVoted := some ⟨h, prio⟩ } } else res.1
 
-/-- `commit` -/
+/-- number of chamber sub-users counted for a hash (`getVotes(kind, hash, KindChamber)` second result) -/
+def Wrapper.cChamber (w : Wrapper) (k : Kind) (h : Nat) : Nat := (w.chamber.get k).count h
+
+/-- `commit`: only when the block is cached and the vote sets it packs still reach the quorums latched in `voteOver` -/
 def commit (s : St) (h : Nat) : St :=
   if !s.env.inCache h then s
   else
-    let s := { s with v := { s.v with committed := true } }
-    let w := s.v.cur?
-    let np := match w with | some w => w.nChamber .precommit h | none => 0
-    let nc := if s.v.shouldCert then (match w with | some w => w.nChamber .cert h | none => 0) else 0
-    s.post (.commit (s.v.round.getD 0) s.v.index h np nc)
+    match assocGet s.v.voteOver h with
+    | none => s
+    | some vs =>
+      let w := s.v.cur?
+      let np := match w with | some w => w.nChamber .precommit h | none => 0
+      let pc := match w with | some w => w.cChamber .precommit h | none => 0
+      let nc := match w with | some w => w.nChamber .cert h | none => 0
+      let cc := match w with | some w => w.cChamber .cert h | none => 0
+      if !statusHas vs .precommit 1 ∨ !(pc ≥ statusQ vs .precommit) then s
+      else if s.v.shouldCert ∧ (!statusHas vs .cert 1 ∨ !(cc ≥ statusQ vs .cert)) then s
+      else
+        let s := { s with v := { s.v with committed := true } }
+        s.post (.commit (s.v.round.getD 0) s.v.index h np (if s.v.shouldCert then nc else 0))
 
 /-- `judgeVoteCount(Certificate, …)` -/
 def judgeCert (s : St) (count q h prio vt : Nat) : St :=
